@@ -88,3 +88,11 @@ Definition w_btx : list hop :=
 Lemma w_bulk : m_eprops (bulk_open w_bn w_be) e01 = [(0, 1)] /\ m_eprop (bulk_open w_bn w_be) e01 0 = Some 5 /\
   m_eprops (run w_btx) e01 = [(0, 5)] /\ m_dump (bulk_open w_bn w_be) <> m_dump (run w_btx).
 Proof. repeat split; try (vm_compute; reflexivity). intro H; vm_compute in H; discriminate H. Qed.
+
+(* K-C06-labelorder: a transaction keeps label additions and removals in two lists and applies all
+   additions before all removals: remove-then-add of one label in one transaction ends removed *)
+Definition h_labord : list hop := [W_base; HTxn [ORemLabel 0 0; OAddLabel 0 0] true].
+Lemma w_labelorder : commits_only h_labord = true /\ wf_hist h_labord = true /\
+  m_labels (run h_labord) 0 = [] /\ g_labels (spec h_labord) 0 = [0] /\
+  m_dump (run h_labord) <> spec_dump h_labord /\ (classes h_labord).(k_labelorder) = true.
+Proof. repeat split; try (vm_compute; reflexivity). intro H; vm_compute in H; discriminate H. Qed.
